@@ -102,6 +102,12 @@ type HangBudget interface {
 	HangWallSeconds() int
 }
 
+// SlowBudget lets a check that runs external processes raise the wall seconds after which a case
+// that meets no logical hang criterion is given up as "slow" (inconclusive). Default 150.
+type SlowBudget interface {
+	SlowWallSeconds() int
+}
+
 // Sharder lets a check choose the number of worker processes.
 type Sharder interface {
 	Shards(cfg *Config) int
@@ -218,7 +224,11 @@ func RunWorker(cfg *Config, chk Check, shard, stride, start int, out string) int
 		hangWall = hb.HangWallSeconds()
 	}
 	curCase.Store(-1)
-	go hangMonitor(hangWall, emit)
+	slowWall := 150
+	if sb, ok := chk.(SlowBudget); ok {
+		slowWall = sb.SlowWallSeconds()
+	}
+	go hangMonitor(hangWall, slowWall, emit)
 	for i := start; i < n; i += stride {
 		prog.WriteAt([]byte(fmt.Sprintf("%-12d", i)), 0)
 		caseCPU.Store(procCPU())
@@ -265,6 +275,16 @@ func RunWorker(cfg *Config, chk Check, shard, stride, start int, out string) int
 			if err == nil {
 				emit(wline{T: "d", Case: i, Data: b})
 			}
+		}
+		// Partial summary: what this worker has observed so far survives its death (a crash in a
+		// later case, or the driver's worker watchdog). The driver adds up all "sum" lines.
+		if sum.Cases >= 200 {
+			for h := range distinct {
+				sum.Distinct = append(sum.Distinct, h)
+			}
+			emit(wline{T: "sum", Sum: sum})
+			sum = &wsum{Cover: map[string]int{}}
+			distinct = map[uint64]struct{}{}
 		}
 	}
 	for h := range distinct {
@@ -328,7 +348,7 @@ func dumpAll() string {
 }
 
 // hangMonitor applies the logical hang criterion of DESIGN §1 to the current case.
-func hangMonitor(hangWall int, emit func(wline)) {
+func hangMonitor(hangWall, slowWall int, emit func(wline)) {
 	for {
 		time.Sleep(500 * time.Millisecond)
 		c := curCase.Load()
@@ -408,7 +428,7 @@ func hangMonitor(hangWall int, emit func(wline)) {
 				os.Exit(3)
 			}
 		}
-		if time.Since(time.Unix(0, start)) > 150*time.Second {
+		if time.Since(time.Unix(0, start)) > time.Duration(slowWall)*time.Second {
 			site := ""
 			if len(s1) > 0 {
 				site = s1[0].site
